@@ -524,6 +524,34 @@ class FixedWidthBinning(BinningBase):
             extra_right += 1
         return extra_left, extra_right
 
+    def _drop_unneeded_bins(
+        self, value, includes_right_edge, new_left: int, new_right: int
+    ) -> Tuple[int, int]:
+        """Remove freshly added bins that the value does not need.
+
+        The ceil of a rounded quotient may also overshoot by one bin (e.g. (25.8 - 18.0) / 0.6
+        evaluates to 13.000000000000002); at most `new_left` / `new_right` bins are removed.
+        """
+        dropped_left = dropped_right = 0
+        if not np.isfinite(value):
+            return dropped_left, dropped_right
+        while (
+            dropped_left < new_left
+            and self._bin_count > 1
+            and value >= (self._times_min + 1) * self._bin_width + self._shift
+        ):
+            self._times_min += 1
+            self._bin_count -= 1
+            dropped_left += 1
+        while dropped_right < new_right and self._bin_count > 1:
+            last_left = (self._times_min + self._bin_count - 1) * self._bin_width + self._shift
+            if value < last_left or (value == last_left and includes_right_edge):
+                self._bin_count -= 1
+                dropped_right += 1
+            else:
+                break
+        return dropped_left, dropped_right
+
     def _force_bin_existence_single(self, value, includes_right_edge=None):
         if includes_right_edge is None:
             includes_right_edge = self.includes_right_edge
@@ -534,6 +562,7 @@ class FixedWidthBinning(BinningBase):
                 self._shift = value - self._times_min * self.bin_width
             self._bin_count = 1
             self._cover_value(value, includes_right_edge)
+            self._drop_unneeded_bins(value, includes_right_edge, self._bin_count, self._bin_count)
             self._bins = None
             self._numpy_bins = None
             return ()
@@ -553,6 +582,11 @@ class FixedWidthBinning(BinningBase):
             extra_left, extra_right = self._cover_value(value, includes_right_edge)
             add_left += extra_left
             add_right += extra_right
+            dropped_left, dropped_right = self._drop_unneeded_bins(
+                value, includes_right_edge, add_left, add_right
+            )
+            add_left -= dropped_left
+            add_right -= dropped_right
             if add_left or add_right:
                 self._bins = None
                 self._numpy_bins = None
